@@ -419,10 +419,13 @@ HTPsync(filerec_t *file_rec /* IN:  File record to store info in */
     int        ret_value = SUCCEED;
 
     HEclear();
-    block = file_rec->ddhead;
-    if (block == NULL) /* check for DD list */
+    if (file_rec->ddhead == NULL) /* check for DD list */
         HGOTO_ERROR(DFE_BADDDLIST, FAIL);
 
+    /* Flush from the last block back to the first one: a block added in this session is
+       then on disk before its predecessor's 'next' pointer is, so the chain in the file
+       never leads to a block that has not been written yet if the process dies in between. */
+    block = file_rec->ddlast;
     while (block != NULL) {         /* check all the blocks for flushing */
         if (block->dirty == TRUE) { /* flush this block? */
             if (HPseek(file_rec, block->myoffset) == FAIL)
@@ -457,7 +460,7 @@ HTPsync(filerec_t *file_rec /* IN:  File record to store info in */
 
             block->dirty = FALSE; /* block has been flushed */
         }                         /* end if */
-        block = block->next;      /* advance to next block for file */
+        block = block->prev;      /* step back to the previous block of the file */
     }                             /* end while */
 
 done:
